@@ -16,7 +16,8 @@
  *                               fp2_srt returns (negated for odd seed): outside the order-r subgroup w.h.p. (spec decides)
  *           r<seed>[/rep]       [r] c<seed>      (a point of the cofactor part: order divides h2)
  *           h<seed>[/rep]       [h2] c<seed>     (a subgroup member not constructed from the generator)
- *           o<ell>,<seed>[/rep] [(h2 r)/ell] c<seed>   (ell a prime factor of h2: order ell or identity)
+ *           o<ell>,<seed>[/rep] [(h2 r)/ell^e] c<seed>, ell^e || h2 r   (ell a prime factor of h2: the ell-primary part
+ *                               of c: a point of small order ell^j, or the identity)
  *           s<ell>,<seed>,<k>[/rep]   [k]G2 + o<ell>,<seed>   (a non-member next to a member)
  *           xy<x0>,<x1>,<y0>,<y1>[/rep]    affine VALUES as given (may be off the curve)
  *           rep: P | J (retag, z = 1)   p<z0>,<z1> (x z, y z, z; PROJC)   j<z0>,<z1> (x z^2, y z^3, z; JACOB)
@@ -195,6 +196,20 @@ static void x_fin(int err, int unch) {
 	ev_end();
 }
 
+/* k := k with every factor l removed: [k]Q then has order a power of l (the l-primary part of Q) */
+static void vh_strip_prime(bn_t k, const bn_t l) {
+	bn_t q, r;
+	bn_null(q); bn_null(r); bn_new(q); bn_new(r);
+	if (bn_cmp_dig(l, 1) == RLC_GT) {
+		for (;;) {
+			bn_div_rem(q, r, k, l);
+			if (!bn_is_zero(r)) break;
+			bn_copy(k, q);
+		}
+	}
+	bn_free(q); bn_free(r);
+}
+
 /* ------------------------------------------------------------ twist points from tokens */
 /* a curve point not constructed from the generator (decompression of a seed-derived x) */
 static void ep2_from_seed(ep2_t p, const char *hex) {
@@ -248,7 +263,7 @@ static void set_point2(ep2_t p, char *tok) {
 		*sd++ = 0;
 		vh_bn_set(l, tok + 1);
 		ep2_from_seed(p, sd);
-		bn_mul(k, H2, N2); bn_div(k, k, l);
+		bn_mul(k, H2, N2); vh_strip_prime(k, l);
 		ep2_mul_basic(p, p, k); ep2_norm(p, p);
 		bn_free(l);
 	} else if (tok[0] == 's') {
@@ -260,7 +275,7 @@ static void set_point2(ep2_t p, char *tok) {
 		*sd++ = 0; *ks++ = 0;
 		vh_bn_set(l, tok + 1);
 		ep2_from_seed(p, sd);
-		bn_mul(k, H2, N2); bn_div(k, k, l);
+		bn_mul(k, H2, N2); vh_strip_prime(k, l);
 		ep2_mul_basic(p, p, k);
 		vh_bn_set(k, ks);
 		ep2_mul_basic(t2, G2, k);
